@@ -231,6 +231,11 @@ func (ex *Exec) execInstr(b *ssa.BasicBlock, st *State, in ssa.Instruction) {
 	case *ssa.Next:
 		ex.execNext(st, in)
 	case *ssa.Select:
+		for _, s := range in.States {
+			if s.Dir == types.SendOnly {
+				ex.beforeChanSend(st, s.Send, in.Pos())
+			}
+		}
 		// non-deterministic choice among the cases
 		idx := vc.fresh("select.idx", SInt)
 		n := len(in.States)
@@ -280,6 +285,7 @@ func (ex *Exec) execInstr(b *ssa.BasicBlock, st *State, in ssa.Instruction) {
 		}
 		vc.note("select abstracted to non-deterministic choice")
 	case *ssa.Send:
+		ex.beforeChanSend(st, in.X, in.Pos())
 		vc.note("channel send abstracted (no effect on modelled state)")
 		ex.chanEvent(st, "sends", TTrue)
 	case *ssa.SliceToArrayPointer, *ssa.MultiConvert:
